@@ -245,6 +245,10 @@ func (f *fileInstr) stmt(s ast.Stmt) {
 			}
 		}
 	}
+	// R6b: weighted ticks for linear-time library searches/copies called by this statement
+	if f.r.Ticks {
+		f.tickCalls(s)
+	}
 	// recurse into nested statement lists
 	switch v := s.(type) {
 	case *ast.BlockStmt:
@@ -275,6 +279,85 @@ func (f *fileInstr) stmt(s ast.Stmt) {
 		case *ast.FuncLit:
 			f.funcBody(v.Body)
 			return false
+		}
+		return true
+	})
+}
+
+// tickCalls inserts vstep.TickN(len(arg0)) before s for every call bytes.X(arg0, ...) / strings.X(arg0, ...)
+// / copy(arg0, ...) that s makes outside nested blocks and function literals, when arg0 is a plain
+// identifier or selector that s itself does not declare.
+func (f *fileInstr) tickCalls(s ast.Stmt) {
+	switch s.(type) {
+	case *ast.BlockStmt, *ast.LabeledStmt, *ast.DeclStmt:
+		return
+	}
+	declared := map[string]bool{}
+	var initStmt ast.Stmt
+	switch v := s.(type) {
+	case *ast.IfStmt:
+		initStmt = v.Init
+	case *ast.ForStmt:
+		initStmt = v.Init
+	case *ast.SwitchStmt:
+		initStmt = v.Init
+	case *ast.TypeSwitchStmt:
+		initStmt = v.Init
+	case *ast.RangeStmt:
+		return
+	}
+	if as, ok := initStmt.(*ast.AssignStmt); ok && as.Tok == token.DEFINE {
+		for _, l := range as.Lhs {
+			if id, ok := l.(*ast.Ident); ok {
+				declared[id.Name] = true
+			}
+		}
+	}
+	if as, ok := s.(*ast.AssignStmt); ok && as.Tok == token.DEFINE {
+		for _, l := range as.Lhs {
+			if id, ok := l.(*ast.Ident); ok {
+				declared[id.Name] = true
+			}
+		}
+	}
+	simple := func(e ast.Expr) bool {
+		for {
+			switch v := e.(type) {
+			case *ast.Ident:
+				return !declared[v.Name]
+			case *ast.SelectorExpr:
+				e = v.X
+			default:
+				return false
+			}
+		}
+	}
+	ast.Inspect(s, func(n ast.Node) bool {
+		switch v := n.(type) {
+		case *ast.BlockStmt:
+			return n == ast.Node(s)
+		case *ast.FuncLit:
+			return false
+		case *ast.CallExpr:
+			if len(v.Args) == 0 || !simple(v.Args[0]) {
+				return true
+			}
+			hit := false
+			if se, ok := v.Fun.(*ast.SelectorExpr); ok {
+				if id, ok := se.X.(*ast.Ident); ok && id.Obj == nil && (id.Name == "bytes" || id.Name == "strings") {
+					switch se.Sel.Name {
+					case "Index", "IndexByte", "IndexAny", "LastIndex", "Contains", "Count", "Equal", "HasPrefix", "HasSuffix", "Split", "Fields", "TrimSpace", "ToLower", "Replace", "EqualFold":
+						hit = true
+					}
+				}
+			} else if id, ok := v.Fun.(*ast.Ident); ok && id.Name == "copy" && id.Obj == nil {
+				hit = true
+			}
+			if hit {
+				f.insert(s.Pos(), fmt.Sprintf("vstep.TickN(len(%s)); ", f.text(v.Args[0])))
+				f.sites["R6.call"]++
+				f.need["vstep"] = true
+			}
 		}
 		return true
 	})
